@@ -20,6 +20,45 @@ def cases_exhaustive():
     return cs
 
 
+COMMON = "ACGRYSMWKVHDBN"        # the codes that are legal for both materials
+LENGTHS = sorted({n + d for n in (1, 2, 4, 8, 16, 32, 64, 128, 256, 512, 1024) for d in (-1, 0, 1)} | {3, 5, 12, 20, 24, 48, 100, 200})
+
+
+def both_material_histories(rng, fns, n):
+    """(model requests, implementation requests): function f on a T/U-free sequence s with one material, after calls of the
+    same f (and of the other functions) on s and on relatives of s with the other material in the same process"""
+    reqs, impl = [], []
+    lengths = [L for L in LENGTHS if L > 0]
+    for k in range(n):
+        L = lengths[k % len(lengths)] if k < 2 * len(lengths) else rng.choice(lengths)
+        alpha = COMMON if rng.random() < 0.7 else rng.choice(["ACG", "AN", "AC", "AG", "ASW", "ARY", "AKM", "ABDHV", "CGA"])
+        s = "".join(rng.choice(alpha) for _ in range(L))
+        rna = rng.random() < 0.5
+        if rng.random() < 0.2:
+            # add_constraints with both materials: same pair first with the other material
+            t = "".join(rng.choice(COMMON if rng.random() < 0.8 else "N") for _ in range(L))
+            earlier = [[s, t, not rna]] + [[t, s, not rna]] * (rng.random() < 0.5)
+            earlier += [["@op", rng.choice(fns), [rng.choice([s, t]), rng.random() < 0.5]] for _ in range(rng.randrange(0, 3))]
+            rng.shuffle(earlier)
+            reqs.append(("add_constraints", [s, t, rna]))
+            impl.append(("after", ["add_constraints", earlier, [s, t, rna]]))
+            continue
+        f = fns[k % len(fns)] if k < 2 * len(lengths) else rng.choice(fns)
+        i = rng.randrange(L)
+        relatives = [s[::-1], s[:L // 2], s + s, s[:i] + rng.choice(COMMON) + s[i + 1:], s[1:] + s[:1]]
+        earlier = [[s, not rna]]                                            # same function, same sequence, other material
+        earlier += [[r, rng.random() < 0.5] for r in rng.sample(relatives, rng.randrange(0, 3)) if r]
+        earlier += [["@op", g, [s, rng.random() < 0.5]] for g in rng.sample(fns, rng.randrange(0, 4)) if g != f]
+        if rng.random() < 0.3:
+            earlier.append([s, rna])                                        # ... and the very same call once before
+        rng.shuffle(earlier)
+        if rng.random() < 0.3:
+            earlier = earlier + [[s, not rna]]                              # the other material immediately before
+        reqs.append((f, [s, rna]))
+        impl.append(("after", [f, earlier, [s, rna]]))
+    return reqs, impl
+
+
 def run(ctx):
     rng = ctx.rng
     quick = ctx.tier == "quick"
@@ -76,8 +115,16 @@ def run(ctx):
             areqs.append(rq)
             aimpl.append(("after", [rq[0], earlier, rq[1]]))
         diffs += correspond(ctx, "iupac-after-other-calls", areqs, impl_reqs=aimpl)
+        # sequences that are legal for BOTH materials (no T, no U), of every length around the powers of two up to 1025, asked
+        # after the SAME function saw the same sequence (and relatives of it: reversed, a prefix, doubled, one code changed)
+        # with the other material, and after the other three functions saw it with either material, in the same process:
+        # the material is an argument of every call, nothing remembered from an earlier call may answer for it
+        breqs, bimpl = both_material_histories(rng, fns, 260 if quick else 3000)
+        diffs += correspond(ctx, "iupac-both-materials-one-process", breqs, impl_reqs=bimpl)
     ctx.cov["rule"] = ("all single letters (15 codes + foreign letters) x 2 materials x 4 functions, all code pairs for "
                        "add_constraints, random sequences up to length 200 with 10% single foreign letters; "
+                       "T/U-free sequences of lengths 1..1025 (around every power of two) asked after the same function saw "
+                       "them with the other material in the same process; "
                        "non-trivial = distinct agreed results")
 
     def search(diffs):
